@@ -43,11 +43,14 @@
 (*                        is set; the flag is never reset, so this also hits types whose propagation was confirmed     *)
 (*                        long ago: a canonicalized type loses its canonical type (TLC: 3 nodes)                      *)
 (*                "fresh" repaired: only a canonical type r received in the class_or_union pass of this comparison,   *)
-(*                        and the flag is reset when the canonical type becomes final (confirmation, canonicalize())   *)
+(*                        and the flag is reset when the canonical type becomes final (confirmation, canonicalize());  *)
+(*                "freshsticky" = the first half of that repair only (the flag stays sticky)                          *)
 (*   Outermost    "coded" as coded: at the outermost return confirm_ct_propagation(r) only drops the dependency on r  *)
 (*                        and cancel_ct_propagation(r) only what depends on r: a type depending on an *inner*          *)
-(*                        recursive type stays non-confirmed for ever and a later failing comparison of that inner    *)
-(*                        type takes its (long since valid) canonical type away (TLC: 5 nodes, 22.8 M states)          *)
+(*                        recursive type stays non-confirmed for ever (NoStale fails).  With a sticky flag a later      *)
+(*                        failing comparison of that inner type then takes its (long since valid) canonical type away   *)
+(*                        (CanonStale5.cfg: "pair" + "freshsticky" + "coded" is refuted with 5 nodes, 22.8 M states);   *)
+(*                        with the flag reset the stale entries are harmless within the bounds checked                 *)
 (*                "flush" repaired: nothing tentative survives the outermost comparison                              *)
 (* GraphClass "any" | "consistent" (what one C translation unit can contain: from any type at most one struct /      *)
 (* typedef per name is reachable), OrderClass "any" | "scc" (sub-types first, any order inside a strongly connected  *)
